@@ -32,6 +32,7 @@ assume pure func (v reflect.Value) IsNil() bool
 assume pure func (v reflect.Value) Interface() interface{}
   ensures v.Kind() != reflect.Interface ==> reflect.TypeOf(result) == v.Type()
   ensures v.Kind() == reflect.Interface && !v.IsNil() ==> reflect.TypeOf(result) == v.Elem().Type()
+  ensures v.Kind() == reflect.Interface && v.IsNil() ==> isnil(result)
 
 assume func (w i.SafeWriter) Print(args ...interface{})
 
